@@ -144,10 +144,17 @@ func reqDeadline(c *Ctx, v ssa.Value, f *ssa.Function, depth int) (bool, string)
 			ok, why := ctxDeadline(c, call.Common().Args[0], f, depth+1)
 			return ok, "NewRequestWithContext ← " + why
 		}
+		// a module helper that builds the request: every request it hands back
+		if g := call.Common().StaticCallee(); core.InModule(g) && len(g.Blocks) > 0 && depth < 6 {
+			return returnedReqDeadline(c, g, x.Index, depth)
+		}
 	case *ssa.Call:
 		if cal := x.Common().StaticCallee(); cal != nil && cal.String() == "(*net/http.Request).WithContext" {
 			ok, why := ctxDeadline(c, x.Common().Args[1], f, depth+1)
 			return ok, "WithContext ← " + why
+		}
+		if g := x.Common().StaticCallee(); g != nil && core.InModule(g) && len(g.Blocks) > 0 && depth < 6 {
+			return returnedReqDeadline(c, g, 0, depth)
 		}
 	case *ssa.Parameter:
 		fn := x.Parent()
@@ -175,6 +182,32 @@ func reqDeadline(c *Ctx, v ssa.Value, f *ssa.Function, depth int) (bool, string)
 		}
 	}
 	return false, fmt.Sprintf("request of unknown origin (%T)", d)
+}
+
+// returnedReqDeadline: every non-nil request that module function g returns as result #idx carries a deadline-bearing context.
+func returnedReqDeadline(c *Ctx, g *ssa.Function, idx int, depth int) (bool, string) {
+	n := 0
+	why := ""
+	for _, b := range g.Blocks {
+		ret, ok := b.Instrs[len(b.Instrs)-1].(*ssa.Return)
+		if !ok || idx >= len(ret.Results) {
+			continue
+		}
+		r := ret.Results[idx]
+		if cst, ok := r.(*ssa.Const); ok && cst.IsNil() {
+			continue
+		}
+		n++
+		ok2, w := reqDeadline(c, r, g, depth+1)
+		if !ok2 {
+			return false, core.FuncName(g) + " returns a request: " + w
+		}
+		why = w
+	}
+	if n == 0 {
+		return false, core.FuncName(g) + " returns no request"
+	}
+	return true, core.FuncName(g) + " ← " + why
 }
 
 // clientTimeout: the *http.Client has a non-zero Timeout assigned where it is built.
